@@ -160,9 +160,9 @@ impl MutableItem {
 /// Contract of `from_dht_message` (established on the real function by C02.O1a-e): Ok iff key
 /// and signature have the right lengths, the signature verifies (pre-drawn oracle verdict) and
 /// target = SHA1(k || salt) (pre-drawn bit); the item carries the inputs.
-pub(crate) static mut CONTRACT_SIG_VALID: bool = false;
-pub(crate) static mut CONTRACT_TARGET_OK: bool = false;
-pub(crate) static mut CONTRACT_CALLS: usize = 0;
+pub(crate) static mut CONTRACT_SIG_VALID: crate::verif_env::Ghost<bool> = crate::verif_env::ghost(33, false);
+pub(crate) static mut CONTRACT_TARGET_OK: crate::verif_env::Ghost<bool> = crate::verif_env::ghost(34, false);
+pub(crate) static mut CONTRACT_CALLS: crate::verif_env::Ghost<usize> = crate::verif_env::ghost(35, 0);
 pub(crate) fn from_dht_message_contract(
     target: Id,
     key: &[u8],
@@ -171,14 +171,14 @@ pub(crate) fn from_dht_message_contract(
     signature: &[u8],
     salt: Option<Box<[u8]>>,
 ) -> Result<MutableItem, MutableError> {
-    unsafe { CONTRACT_CALLS += 1 };
+    unsafe { CONTRACT_CALLS.v += 1 };
     if key.len() != 32 {
         return Err(MutableError::InvalidMutablePublicKey);
     }
-    if signature.len() != 64 || !unsafe { CONTRACT_SIG_VALID } {
+    if signature.len() != 64 || !unsafe { CONTRACT_SIG_VALID.v } {
         return Err(MutableError::InvalidMutableSignature);
     }
-    if !unsafe { CONTRACT_TARGET_OK } {
+    if !unsafe { CONTRACT_TARGET_OK.v } {
         return Err(MutableError::InvalidMutablePublicKey);
     }
     let mut k = [0u8; 32];
